@@ -2,6 +2,7 @@
 import contextlib
 import os
 import pickle
+import gc
 import json
 import shutil
 import subprocess
@@ -299,6 +300,10 @@ def check_cat(bufs_text, flat_text):
 # ------------------------------------------------------------------ tie
 
 
+class StreamDependsOnUse(Exception):
+    pass
+
+
 def run_interleaved(ds, ops):
     """several iterators over ONE dataset object, advanced in the given interleaving (`mk`: iter(ds);
     `n<j>`: next(it_j); `f<n>`: fastforward_epochs(n)).  Returns (recorded permutations in the order
@@ -310,8 +315,20 @@ def run_interleaved(ds, ops):
                 its.append({"it": iter(ds), "got": [], "stopped": False})
             elif op[0] == "f":
                 ds.fastforward_epochs(int(op[1:]))
+            elif op[0] == "c":
+                # the caller gives up on iterator j (break out of the loop, an exception in the
+                # training step, the iterator garbage-collected): nothing of the stream is undone
+                it = its[int(op[1:])]
+                if not it["stopped"] and not it.get("closed"):
+                    it["closed"] = True
+                    if op[1:].endswith("0") or len(it["got"]) % 2:
+                        it["it"].close()
+                    it["it"] = None
+                    gc.collect()
             else:
                 it = its[int(op[1:])]
+                if it.get("closed"):
+                    continue
                 try:
                     b = next(it["it"])
                     it["got"].append(batches_str([b.data]).split(" ", 1)[1])
@@ -329,17 +346,30 @@ def gen_interleaving(rng):
             n += 1
         elif r < 0.28:
             ops.append("f%d" % rng.choice([1, 1, 2]))
+        elif r < 0.36:
+            ops.append("c%d" % rng.randrange(n))
         else:
             ops.append("n%d" % rng.randrange(n))
     # usually let one iterator run to its end
     if rng.random() < 0.7:
         ops += ["n%d" % rng.randrange(n)] * rng.choice([3, 8, 30])
+    if rng.random() < 0.5:
+        # ... or pull exactly the batches of an epoch (zip, islice: StopIteration never seen), give
+        # the iterator up, and go on with new ones
+        j = rng.randrange(n)
+        ops += ["n%d" % j] * rng.choice([1, 2, 3, 5]) + ["c%d" % j, "mk", "n%d" % n, "n%d" % n, "mk", "n%d" % (n + 1)]
     return ops
 
 
 def interleaved_line(c, ftable, ops):
     """the driver line that evaluates C20_interleaved on what the real iterators returned"""
     log, its = run_interleaved(make_dataset(c), ops)
+    # the seed alone decides the sequence of shuffles: a twin that only fast-forwards draws the same
+    log2 = []
+    with recorded_randperm(log2):
+        make_dataset(c).fastforward_epochs(len(log))
+    if [pl for _, pl in log] != [pl for _, pl in log2]:
+        raise StreamDependsOnUse("the %d shuffles drawn under this use %s differ from the seed's sequence %s" % (len(log), [pl for _, pl in log], [pl for _, pl in log2]))
     started = [(got, st) for got, st in its if got or st]
     line = "dataset check-session %d %s %d %s %s %d %s" % (
         c["b"],
@@ -355,7 +385,10 @@ def interleaved_line(c, ftable, ops):
 
 def check_interleaved(c, ftable, ops):
     """[] or ["interleaved-iterators"]"""
-    line, its = interleaved_line(c, ftable, ops)
+    try:
+        line, its = interleaved_line(c, ftable, ops)
+    except StreamDependsOnUse as e:
+        return ["interleaved-iterators"], str(e)[:300], []
     out = driver.run_lines([line])[0]
     return ([] if out == "ok" else ["interleaved-iterators"]), out, its
 
@@ -457,6 +490,8 @@ def tie(ctx):
                 try:
                     iline, its = interleaved_line(c, ftable, ops)
                     inter.append((idesc, iline, its))
+                except StreamDependsOnUse as e:
+                    divs.append(Divergence("impl.interleaved", idesc, str(e)[:600], "the sequence of epochs depends on the seed alone"))
                 except Exception as e:
                     divs.append(Divergence("impl.interleaved", idesc, "crash " + type(e).__name__, "every iterator yields one epoch of the sequential stream"))
                 ctx.evaluated()
